@@ -9,6 +9,7 @@ facade over plain Python values for replay on the real, unshimmed classes.
 """
 import itertools
 import numbers
+import os as _os
 import sys
 import time
 
@@ -270,6 +271,8 @@ class SInt:
         return SymStr(s)
 
     def __format__(s, spec):
+        if spec in ("x", "d", ""):
+            return SymStr(s)          # opaque rendering (reaches uninterpreted hash functions without enumerating values)
         return format(CUR.concretize(s.t), spec)
 
     def bit_length(s):
@@ -279,14 +282,19 @@ class SInt:
 class HInt(SInt):
     """A symbolic integer h given as h = q*m + r with 0 <= r < m (every integer has exactly one such decomposition):
     `h % m` is r itself, so the residue arithmetic of `hash % size` never reaches the solver as a `mod` term."""
-    __slots__ = ("dec",)
+    __slots__ = ("dec", "levels", "parts")
 
     def __mod__(s, o):
         m, r, q = s.dec
         if isinstance(o, int) and o == m:
             return r
+        lv = getattr(s, "levels", None)
+        if lv and isinstance(o, int) and o in lv:
+            return lv[o]
         if isinstance(o, int) and o > 0 and o % m == 0 and isinstance(q, int):
             return Engine.compose(q % (o // m), m, r)
+        if isinstance(o, int) and o > 0 and m % o == 0:
+            return r % o                       # (q*m + r) % o == r % o when o divides m
         return SInt.__mod__(s, o)
 
     def __floordiv__(s, o):
@@ -304,7 +312,7 @@ numbers.Integral.register(SInt)
 class SymStr(str):
     """str(SInt): an opaque string that remembers the symbolic int it renders"""
     def __new__(cls, sint):
-        o = super().__new__(cls, f"<sym:{sint!r}>")
+        o = super().__new__(cls, "<sym-int>")
         o.sym = sint
         return o
 
@@ -510,22 +518,38 @@ class Engine:
         return r
 
     def hashval(self, name, m, lo=0, hi=2 ** 64 - 1):
-        """an arbitrary integer in [lo, hi] that the code is expected to reduce modulo m (see HInt)"""
-        q, r = z3.Int(f"{name}.q"), z3.Int(f"{name}.r")
-        t = q * m + r
-        self.solver.add(r >= 0, r < m, t >= lo, t <= hi)
+        """an arbitrary integer in [lo, hi] that the code is expected to reduce modulo m (see HInt).
+        m may be a list [m0, m1, ...] with m0 | m1 | ...: the residues modulo every listed value are mod-free terms."""
+        mods = list(m) if isinstance(m, (list, tuple)) else [m]
+        q, r0 = z3.Int(f"{name}.q"), z3.Int(f"{name}.r")
+        self.solver.add(r0 >= 0, r0 < mods[0])
+        res, parts, levels = r0, [q, r0], {mods[0]: SInt(r0, 0, mods[0] - 1)}
+        for i in range(1, len(mods)):
+            assert mods[i] % mods[i - 1] == 0
+            d = z3.Int(f"{name}.d{i}")
+            self.solver.add(d >= 0, d < mods[i] // mods[i - 1])
+            res = res + mods[i - 1] * d
+            parts.append(d)
+            levels[mods[i]] = SInt(res, 0, mods[i] - 1)
+        top = mods[-1]
+        t = q * top + res
+        self.solver.add(t >= lo, t <= hi)
         h = HInt(t, lo, hi)
-        h.dec = (m, SInt(r, 0, m - 1), None)
+        h.dec = (top, levels[top], None)
+        h.levels, h.parts = levels, parts
         self.inputs[name] = h
         return h
 
     @staticmethod
     def compose(q, m, r):
         """the integer q*m + r for a concrete q and a symbolic r in [0, m)  (x // m is q and x % m is r without solver work)"""
-        if isinstance(r, int):
+        if isinstance(r, int) and isinstance(q, int):
             return q * m + r
-        h = HInt(q * m + r.t, q * m + (r.lo or 0), q * m + (r.hi if r.hi is not None else m - 1))
+        ql, qh = _iv(q)
+        rl, rh = _iv(r)
+        h = HInt(T(q) * m + T(r), None if ql is None else ql * m + (rl or 0), None if qh is None else qh * m + (rh if rh is not None else m - 1))
         h.dec = (m, r, q)
+        h.levels = h.parts = None
         return h
 
     def bits(self, name, w):
@@ -539,17 +563,17 @@ class Engine:
         self.inputs[name] = b
         return b
 
-    def uf(self, fname, arg, lo=None, hi=None):
+    def uf(self, fname, arg, lo=None, hi=None, mod=None):
         """application of an uninterpreted function fname (Ackermann-style: equal arguments give equal results)"""
         apps = self.uf_apps.setdefault(fname, [])
-        if isinstance(arg, int):
-            for a, v in apps:
-                if isinstance(a, int) and a == arg:
-                    return v
+        for a, v in apps:
+            if a is arg or (isinstance(a, int) and isinstance(arg, int) and a == arg):
+                return v
         n = len(apps)
-        v = self.int(f"uf:{fname}:{n}", lo, hi)
+        v = self.hashval(f"uf:{fname}:{n}", mod, lo, hi) if mod else self.int(f"uf:{fname}:{n}", lo, hi)
         for a, w in apps:
-            self.solver.add(z3.Implies(T(a) == T(arg), v.t == T(w)))
+            same = z3.And(*[x == y for x, y in zip(v.parts, w.parts)]) if mod else v.t == T(w)
+            self.solver.add(z3.Implies(T(a) == T(arg), same))
         apps.append((arg, v))
         return v
 
@@ -780,9 +804,10 @@ class Engine:
             if self.seed:
                 self.solver.set("random_seed", self.seed)
             self.inputs, self.uf_apps, self.obs = {}, {}, {}
+            self.bv_obligations = []
             self.n_paths += 1
             completed = False
-            tracing = trace_functions and self.n_paths <= 3
+            tracing = trace_functions and self.n_paths <= 3 and not _os.environ.get('PVX_NOTRACE')
             if tracing:
                 sys.setprofile(self._profile)
             normal_end = False
@@ -797,6 +822,8 @@ class Engine:
                 self.budget.append(len(self.decisions))
             except RecursionError:
                 self.unsupported.append("RecursionError")
+            except z3.Z3Exception as e:     # harness/engine misuse of a term, not library behaviour
+                self.unsupported.append(f"Z3Exception: {e!r}"[:160])
             except Exception as e:  # unexpected exception escaping the library = candidate violation
                 label = f"no-unexpected-exception:{type(e).__name__}"
                 self.reach(label)
@@ -864,3 +891,156 @@ def _short(d, n=12):
             break
         out[k] = v
     return out
+
+
+# ---------------------------------------------------------------------------- bit-vector kernel values (shape K)
+WIDE = 136
+
+
+class SBV:
+    """A Python int that provably stays in [0, 2^WIDE): arithmetic on a wide bit-vector, with a no-overflow
+    obligation per + and * (collected in CUR.bv_obligations and discharged by the harness), so the model is exact."""
+    __slots__ = ("t",)
+
+    def __init__(self, t):
+        self.t = t
+
+    @staticmethod
+    def lift(x):
+        if isinstance(x, SBV):
+            return x.t
+        if isinstance(x, NBV):
+            return z3.ZeroExt(WIDE - x.w, x.t)
+        if isinstance(x, int) and 0 <= x < (1 << WIDE):
+            return z3.BitVecVal(x, WIDE)
+        raise Unsupported(f"SBV operand {type(x)} {x!r}"[:80])
+
+    def __add__(s, o):
+        CUR.bv_obligations.append(z3.BVAddNoOverflow(s.t, SBV.lift(o), False))
+        return SBV(s.t + SBV.lift(o))
+    __radd__ = __add__
+
+    def __mul__(s, o):
+        CUR.bv_obligations.append(z3.BVMulNoOverflow(s.t, SBV.lift(o), False))
+        return SBV(s.t * SBV.lift(o))
+    __rmul__ = __mul__
+
+    def __and__(s, o):
+        return SBV(s.t & SBV.lift(o))
+    __rand__ = __and__
+
+    def __or__(s, o):
+        return SBV(s.t | SBV.lift(o))
+    __ror__ = __or__
+
+    def __xor__(s, o):
+        return SBV(s.t ^ SBV.lift(o))
+    __rxor__ = __xor__
+
+    def __rshift__(s, o):
+        if not isinstance(o, int):
+            raise Unsupported("symbolic shift of SBV")
+        return SBV(z3.LShR(s.t, o))
+
+    def __lshift__(s, o):
+        if not isinstance(o, int):
+            raise Unsupported("symbolic shift of SBV")
+        CUR.bv_obligations.append(z3.LShR(s.t, WIDE - o) == 0)
+        return SBV(s.t << o)
+
+    def _cmp(s, o, f):
+        a, b = s.t, SBV.lift(o)
+        return CUR.branch({"eq": a == b, "ne": a != b, "lt": z3.ULT(a, b), "le": z3.ULE(a, b), "gt": z3.UGT(a, b), "ge": z3.UGE(a, b)}[f])
+
+    def __eq__(s, o):
+        return s._cmp(o, "eq") if isinstance(o, (int, SBV, NBV)) else False
+
+    def __ne__(s, o):
+        return s._cmp(o, "ne") if isinstance(o, (int, SBV, NBV)) else True
+
+    def __lt__(s, o): return s._cmp(o, "lt")
+    def __le__(s, o): return s._cmp(o, "le")
+    def __gt__(s, o): return s._cmp(o, "gt")
+    def __ge__(s, o): return s._cmp(o, "ge")
+    __hash__ = None
+
+
+numbers.Integral.register(SBV)
+
+
+class NBV:
+    """w-bit modular value (the reference side of a kernel obligation)"""
+    __slots__ = ("t", "w")
+
+    def __init__(self, t, w):
+        self.t, self.w = t, w
+
+    def _o(s, o):
+        return o.t if isinstance(o, NBV) else z3.BitVecVal(o, s.w)
+
+    def __add__(s, o): return NBV(s.t + s._o(o), s.w)
+    def __mul__(s, o): return NBV(s.t * s._o(o), s.w)
+    def __xor__(s, o): return NBV(s.t ^ s._o(o), s.w)
+    def __and__(s, o): return NBV(s.t & s._o(o), s.w)
+    def __sub__(s, o): return NBV(s.t - s._o(o), s.w)
+    def zext(s, w): return NBV(z3.ZeroExt(w - s.w, s.t), w) if w > s.w else s
+    def trunc(s, w): return NBV(z3.Extract(w - 1, 0, s.t), w) if w < s.w else s
+    def eq(s, o): return s.t == s._o(o)
+    def ult(s, o): return z3.ULT(s.t, s._o(o))
+
+
+def _bv_methods():
+    def bv(self, name, w):
+        v = z3.BitVec(name, w)
+        self.inputs[name] = v
+        return NBV(v, w)
+
+    def bvconst(self, v, w):
+        return NBV(z3.BitVecVal(v, w), w)
+
+    def wide(self, x):
+        """the Python int with the (unsigned) value of x, as a proxy the real code computes with"""
+        return SBV(SBV.lift(x))
+
+    def narrow(self, x, w):
+        """low w bits of a proxy / int"""
+        if isinstance(x, int):
+            return NBV(z3.BitVecVal(x & ((1 << w) - 1), w), w)
+        return NBV(z3.Extract(w - 1, 0, SBV.lift(x)), w)
+
+    def fits(self, x, w):
+        if isinstance(x, int):
+            return 0 <= x < (1 << w)
+        return z3.ULT(SBV.lift(x), z3.BitVecVal(1 << w, WIDE))
+
+    def same_int(self, x, y):
+        if isinstance(x, int) and isinstance(y, int):
+            return x == y
+        return SBV.lift(x) == SBV.lift(y)
+
+    def no_overflow(self):
+        obs, self.bv_obligations = self.bv_obligations, []
+        return z3.And(*obs) if obs else True
+    for f in (bv, bvconst, wide, narrow, fits, same_int, no_overflow):
+        setattr(Engine, f.__name__, f)
+    Engine.bv_obligations = []
+
+
+_bv_methods()
+_orig_model_inputs = Engine._model_inputs
+
+
+def _model_inputs_bv(self, model):
+    bvs = {k: v for k, v in self.inputs.items() if z3.is_bv(v)}
+    saved = self.inputs
+    self.inputs = {k: v for k, v in saved.items() if k not in bvs}
+    try:
+        ins, ufs = _orig_model_inputs(self, model)
+    finally:
+        self.inputs = saved
+    for k, v in bvs.items():
+        ins[k] = model.eval(v, model_completion=True).as_long()
+    return ins, ufs
+
+
+Engine._model_inputs = _model_inputs_bv
